@@ -234,3 +234,20 @@ proof fn lemma_first_with_seq_none(q: Seq<ResendChunk>, ack: Sequence)
 fn vx_collect_arrayvec<A>(data: &[u8]) -> (r: ArrayVec<A>)
     ensures r.wf(), data@.len() <= 2048 ==> r@ == data@, data@.len() > 2048 ==> r@ == data@.subrange(0, 2048),
 { unimplemented!() }
+
+// the token agreed with the peer, if the state fixes one (None = no token known yet / not connected)
+spec fn state_token(s: State) -> Option<Option<Token>> {
+    match s {
+        State::Pending(p) => Some(p.token),
+        State::Online(o) => Some(o.token),
+        _ => None,
+    }
+}
+
+impl Connection {
+    spec fn wf(&self) -> bool { match self.state { State::Online(o) => o.wf(), _ => true } }
+}
+// the send log grew by at most one datagram of at most 1400 bytes
+spec fn sent_at_most_one(before: Seq<Seq<u8>>, after: Seq<Seq<u8>>) -> bool {
+    after == before || (after.len() == before.len() + 1 && after.subrange(0, before.len() as int) == before && after.last().len() <= 1400)
+}
